@@ -41,6 +41,8 @@ pub enum What {
     Req { user: User, mi: Mi, uc: bool, method: u8 },
     Resp { tx: u8, error: bool, method: u8 },     // tx: index into pending (0..) or 200+ = unknown id
     Ind, Garbage(Vec<u8>), Empty, Data(Vec<u8>),
+    /// hand-laid-out Binding request with a malformed / unusual credential layout (index into `LAYOUTS`)
+    Raw { layout: u8, uc: bool },
 }
 #[derive(Clone, Debug)] pub struct Pkt { pub sock: Sk, pub src: u8, pub what: What }
 #[derive(Clone, Debug)]
@@ -63,6 +65,7 @@ impl Case {
                 What::Req { user, mi, uc, method } => format!("req.{}.{}.{}.{}", *user as u8, *mi as u8, *uc as u8, method),
                 What::Resp { tx, error, method } => format!("resp.{tx}.{}.{method}", *error as u8),
                 What::Ind => "ind".into(), What::Garbage(b) => format!("gar.{}", hex(b)), What::Empty => "empty".into(), What::Data(b) => format!("data.{}", hex(b)),
+                What::Raw { layout, uc } => format!("raw.{layout}.{}", *uc as u8),
             };
             s.push_str(&format!(" {sk}<{}:{w}", p.src));
         }
@@ -82,6 +85,7 @@ impl Case {
             let what = match f[0] {
                 "req" => What::Req { user: [User::None, User::Wrong, User::Ok][f[1].parse::<usize>().ok()?], mi: [Mi::None, Mi::Corrupt, Mi::WrongKey, Mi::Ok][f[2].parse::<usize>().ok()?], uc: f[3] == "1", method: f[4].parse().ok()? },
                 "resp" => What::Resp { tx: f[1].parse().ok()?, error: f[2] == "1", method: f[3].parse().ok()? },
+                "raw" => What::Raw { layout: f[1].parse().ok()?, uc: f[2] == "1" },
                 "ind" => What::Ind, "gar" => What::Garbage(unhex(f[1])), "empty" => What::Empty, _ => What::Data(unhex(f[1])),
             };
             pkts.push(Pkt { sock, src: src.parse().ok()?, what });
@@ -238,6 +242,85 @@ fn observe(t: &IceTransport, out: String) -> Obs {
 
 const METHODS: [StunMethod; 3] = [StunMethod::Binding, StunMethod::Allocate, StunMethod::ChannelBind];
 
+/// Malformed / unusual credential layouts. `carries`: the datagram has, at attribute boundaries reachable from
+/// the header, a USERNAME `<ufrag>:x` and a full 20-byte MESSAGE-INTEGRITY = HMAC-SHA1(local password, message
+/// up to the attribute with the length field pointing to its end). `must`: Some(true) the credential check
+/// has to accept (RFC-conformant, attributes after MESSAGE-INTEGRITY are ignored, padding bytes are free),
+/// Some(false) it has to reject, None no claim (layouts an implementation may treat either way).
+pub const LAYOUTS: [(&str, bool, Option<bool>); 28] = [
+    ("mi-len-0", false, Some(false)), ("mi-len-1-hmac-prefix", false, Some(false)), ("mi-len-4-hmac-prefix", false, Some(false)),
+    ("mi-len-19-hmac-prefix", false, Some(false)), ("mi-len-21", false, Some(false)), ("mi-len-24", false, Some(false)),
+    ("mi-len-20-value-truncated", false, Some(false)), ("mi-twice-garbage-then-hmac-of-first-slot", false, Some(false)),
+    ("mi-twice-valid-then-garbage", true, Some(true)), ("mi-before-username", true, None),
+    ("username-empty", false, Some(false)), ("username-no-colon", false, Some(false)), ("username-prefix-of-ufrag", false, Some(false)),
+    ("username-ufrag-extended", false, Some(false)), ("username-colon-first", false, Some(false)), ("username-empty-peer-part", true, Some(true)),
+    ("username-non-utf8-peer-part", true, None), ("attributes-after-mi", true, Some(true)), ("truncated-final-attribute-after-mi", true, None),
+    ("oversized-attribute-before-mi", false, Some(false)), ("mi-inside-another-attribute", false, Some(false)),
+    ("nonzero-padding-bytes", true, Some(true)), ("missing-padding-misaligned-mi", false, Some(false)), ("full-mi-wrong-key", false, Some(false)),
+    ("header-length-mismatch", true, None), ("two-usernames-foreign-first", true, None), ("mi-len-0-no-username", false, Some(false)),
+    ("genuine", true, Some(true)),
+];
+
+fn raw_tlv(t: u16, v: &[u8], pad: u8) -> Vec<u8> {
+    let mut o = t.to_be_bytes().to_vec(); o.extend_from_slice(&(v.len() as u16).to_be_bytes()); o.extend_from_slice(v);
+    o.extend(std::iter::repeat_n(pad, (4 - v.len() % 4) % 4)); o
+}
+fn raw_header(len: usize, tx: &[u8; 12]) -> Vec<u8> {
+    let mut h = vec![0x00, 0x01]; h.extend_from_slice(&(len as u16).to_be_bytes()); h.extend_from_slice(&[0x21, 0x12, 0xa4, 0x42]); h.extend_from_slice(tx); h
+}
+/// RFC 5389 §15.4 written out with the hmac/sha1 crates (independent of rustrtc)
+fn raw_mac(key: &[u8], tx: &[u8; 12], area_before: &[u8]) -> [u8; 20] {
+    use hmac::{Hmac, KeyInit, Mac};
+    let mut m = <Hmac<sha1::Sha1> as KeyInit>::new_from_slice(key).unwrap();
+    m.update(&raw_header(area_before.len() + 24, tx)); m.update(area_before);
+    m.finalize().into_bytes().into()
+}
+
+pub fn build_layout(layout: u8, uc: bool, ufrag: &str, pwd: &str, tx: &[u8; 12]) -> Vec<u8> {
+    let name = LAYOUTS[layout as usize].0;
+    let key = pwd.as_bytes();
+    let rest = |mut a: Vec<u8>| { a.extend(raw_tlv(0x0024, &1845501695u32.to_be_bytes(), 0)); a.extend(raw_tlv(0x802A, &7u64.to_be_bytes(), 0)); if uc { a.extend(raw_tlv(0x0025, &[], 0)); } a };
+    let pre_user = |user: &[u8]| rest(raw_tlv(0x0006, user, 0));
+    let good_user = format!("{ufrag}:peerufrag").into_bytes();
+    let pre = pre_user(&good_user);
+    let mac = raw_mac(key, tx, &pre);
+    let with_full_mi = |area: Vec<u8>| { let m = raw_mac(key, tx, &area); let mut a = area; a.extend(raw_tlv(0x0008, &m, 0)); a };
+    let area: Vec<u8> = match name {
+        "mi-len-0" => { let mut a = pre.clone(); a.extend(raw_tlv(0x0008, &[], 0)); a }
+        "mi-len-1-hmac-prefix" => { let mut a = pre.clone(); a.extend(raw_tlv(0x0008, &mac[..1], 0)); a }
+        "mi-len-4-hmac-prefix" => { let mut a = pre.clone(); a.extend(raw_tlv(0x0008, &mac[..4], 0)); a }
+        "mi-len-19-hmac-prefix" => { let mut a = pre.clone(); a.extend(raw_tlv(0x0008, &mac[..19], 0)); a }
+        "mi-len-21" => { let mut v = mac.to_vec(); v.push(0xAA); let mut a = pre.clone(); a.extend(raw_tlv(0x0008, &v, 0)); a }
+        "mi-len-24" => { let mut v = mac.to_vec(); v.extend_from_slice(&[1, 2, 3, 4]); let mut a = pre.clone(); a.extend(raw_tlv(0x0008, &v, 0)); a }
+        "mi-len-20-value-truncated" => { let mut a = pre.clone(); a.extend_from_slice(&[0, 8, 0, 20]); a.extend_from_slice(&mac[..12]); a }
+        "mi-twice-garbage-then-hmac-of-first-slot" => { let mut a = pre.clone(); a.extend(raw_tlv(0x0008, &[0x5a; 20], 0)); a.extend(raw_tlv(0x0008, &mac, 0)); a }
+        "mi-twice-valid-then-garbage" => { let mut a = with_full_mi(pre.clone()); a.extend(raw_tlv(0x0008, &[0x5a; 20], 0)); a }
+        "mi-before-username" => { let mut a = with_full_mi(rest(vec![])); a.extend(raw_tlv(0x0006, &good_user, 0)); a }
+        "username-empty" => with_full_mi(pre_user(b"")),
+        "username-no-colon" => with_full_mi(pre_user(ufrag.as_bytes())),
+        "username-prefix-of-ufrag" => with_full_mi(pre_user(format!("{}:peerufrag", &ufrag[..ufrag.len() - 1]).as_bytes())),
+        "username-ufrag-extended" => with_full_mi(pre_user(format!("{ufrag}Z:peerufrag").as_bytes())),
+        "username-colon-first" => with_full_mi(pre_user(format!(":{ufrag}").as_bytes())),
+        "username-empty-peer-part" => with_full_mi(pre_user(format!("{ufrag}:").as_bytes())),
+        "username-non-utf8-peer-part" => { let mut u = format!("{ufrag}:").into_bytes(); u.extend_from_slice(&[0xff, 0xfe]); with_full_mi(pre_user(&u)) }
+        "attributes-after-mi" => { let mut a = with_full_mi(pre.clone()); a.extend(raw_tlv(0x0024, &[0, 0, 0, 9], 0)); a.extend(raw_tlv(0x8022, b"late", 0)); a }
+        "truncated-final-attribute-after-mi" => { let mut a = with_full_mi(pre.clone()); a.extend_from_slice(&[0x80, 0x22, 0x00, 0x10, b'x', b'y']); a }
+        "oversized-attribute-before-mi" => { let mut a = raw_tlv(0x0006, &good_user, 0); a.extend_from_slice(&[0x80, 0x22, 0x00, 0xff, 1, 2, 3, 4]); with_full_mi(a) }
+        "mi-inside-another-attribute" => { let mut a = pre.clone(); a.extend(raw_tlv(0x8022, &raw_tlv(0x0008, &mac, 0), 0)); a }
+        "nonzero-padding-bytes" => { let u = format!("{ufrag}:pe").into_bytes(); debug_assert!(u.len() % 4 != 0); with_full_mi(rest(raw_tlv(0x0006, &u, 0xff))) }
+        "missing-padding-misaligned-mi" => { let u = format!("{ufrag}:p").into_bytes(); let mut a = vec![0, 6]; a.extend_from_slice(&(u.len() as u16).to_be_bytes()); a.extend_from_slice(&u); with_full_mi(rest(a)) }
+        "full-mi-wrong-key" => { let m = raw_mac(b"not-the-local-password", tx, &pre); let mut a = pre.clone(); a.extend(raw_tlv(0x0008, &m, 0)); a }
+        "header-length-mismatch" => with_full_mi(pre.clone()),
+        "two-usernames-foreign-first" => with_full_mi(rest({ let mut a = raw_tlv(0x0006, b"deadbeefdeadbeef:peer", 0); a.extend(raw_tlv(0x0006, &good_user, 0)); a })),
+        "mi-len-0-no-username" => { let mut a = rest(vec![]); a.extend(raw_tlv(0x0008, &[], 0)); a }
+        _ => { let mut a = with_full_mi(pre.clone()); let mut whole = raw_header(a.len() + 8, tx); whole.extend_from_slice(&a);
+               let crc = crc32fast::hash(&whole) ^ 0x5354_554e; a.extend(raw_tlv(0x8028, &crc.to_be_bytes(), 0)); a }
+    };
+    let mut pkt = raw_header(area.len() + if name == "header-length-mismatch" { 4 } else { 0 }, tx);
+    pkt.extend_from_slice(&area);
+    pkt
+}
+
 fn packet_bytes(b: &Built, p: &Pkt, tx_rng: &mut Rng) -> (Vec<u8>, Option<bool>) {
     match &p.what {
         What::Req { user, mi, uc, method } => {
@@ -260,6 +343,8 @@ fn packet_bytes(b: &Built, p: &Pkt, tx_rng: &mut Rng) -> (Vec<u8>, Option<bool>)
         }
         What::Ind => (StunMessage { class: StunClass::Indication, method: StunMethod::Binding, transaction_id: [9; 12], attributes: vec![] }.encode(None, true).unwrap(), None),
         What::Garbage(g) => (g.clone(), None), What::Empty => (vec![], None), What::Data(d) => (d.clone(), None),
+        What::Raw { layout, uc } => { let tx: [u8; 12] = tx_rng.bytes(12).try_into().unwrap();
+            (build_layout(*layout, *uc, &b.ufrag, &b.pwd, &tx), Some(LAYOUTS[*layout as usize].1)) }
     }
 }
 
@@ -293,9 +378,10 @@ pub fn exec(env: &mut Env, run: &mut Run, c: &Case, verbose: bool) {
         if verbose { println!("pkt {:?} -> {}", p, after.text()); }
         // ---- the property's oracle, on the implementation only
         let role = if c.controlling { "controlling" } else { "controlled" };
-        if let (What::Req { .. }, Some(false), false) = (&p.what, authentic, c.webrtc) { run.count("unauthenticated_request_in_rtp_mode_not_judged"); }
-        if let (What::Req { user, mi, .. }, Some(false), true) = (&p.what, authentic, c.webrtc) {
-            let v = variant(*user, *mi);
+        let is_req = matches!(p.what, What::Req { .. } | What::Raw { .. });
+        if let (true, Some(false), false) = (is_req, authentic, c.webrtc) { run.count("unauthenticated_request_in_rtp_mode_not_judged"); }
+        if let (true, Some(false), true) = (is_req, authentic, c.webrtc) {
+            let v: String = match &p.what { What::Req { user, mi, .. } => variant(*user, *mi).to_string(), What::Raw { layout, .. } => format!("malformed-{}", LAYOUTS[*layout as usize].0), _ => unreachable!() };
             let mut eff = vec![];
             if after.rems != before.rems { eff.push("candidate-added"); }
             if after.sel != before.sel { eff.push(if before.sel.is_some() { "selected-pair-changed" } else { "pair-selected" }); }
@@ -317,7 +403,15 @@ pub fn exec(env: &mut Env, run: &mut Run, c: &Case, verbose: bool) {
         // reply well-formedness (reference crate): Binding success, same transaction id, XOR-MAPPED = source, MI under the local password, FINGERPRINT
         if let (Some(rep), What::Req { .. }) = (&reply, &p.what) { reply_oracle(run, c, rep, &bytes, src, &b.pwd); }
         if matches!(p.what, What::Req { .. }) && reply.is_none() && r.is_ok() && p.sock != Sk::Listener { run.count("request_without_observed_reply"); }
-        if let Some(a) = authentic {
+        if let What::Raw { layout, .. } = &p.what {
+            // the credential check itself on the hand-laid-out datagram: implementation vs the layout's claim vs the model
+            let (name, carries, must) = LAYOUTS[*layout as usize];
+            let real = b.transport.verif_request_authenticated(&bytes);
+            if real && !carries { run.fail(&format!("auth-check:accepts-forged-request:{name}"), &c.text(), &hex(&bytes)); }
+            if let Some(m) = must { if real != m { run.fail(&format!("auth-check:{}:{name}", if real { "accepts-forged-request" } else { "rejects-genuine-request" }), &c.text(), &hex(&bytes)); } }
+            run.case("codeauth", &format!("{} {} {}", hex(b.ufrag.as_bytes()), hex(b.pwd.as_bytes()), hex(&bytes)), &(real as u8).to_string(), real);
+            run.count(&format!("layout_{name}_{}", if real { "accepted" } else { "rejected" }));
+        } else if let Some(a) = authentic {
             // three-way: the real `stun_request_authenticated`, the generator's intent (= strict RFC reading), the model
             let real = b.transport.verif_request_authenticated(&bytes);
             if real != a { run.fail(&format!("auth-check:{}", if real { "accepts-forged-request" } else { "rejects-genuine-request" }), &c.text(), &hex(&bytes)); }
@@ -330,7 +424,7 @@ pub fn exec(env: &mut Env, run: &mut Run, c: &Case, verbose: bool) {
     run.case("run", &input, &out, changed);
     run.count(&format!("cases_{}_{}", if c.controlling { "controlling" } else { "controlled" }, ["new", "checking", "connected"][(c.state % 3) as usize]));
     for p in &c.pkts { run.count(&format!("pkt_{}", match &p.what { What::Req { user, mi, .. } => format!("req_{}", variant(*user, *mi).replace("bad-integrity", if *mi == Mi::Ok && *user == User::Ok { "authentic" } else { "bad-integrity" })),
-        What::Resp { .. } => "resp".into(), What::Ind => "ind".into(), What::Garbage(_) => "garbage".into(), What::Empty => "empty".into(), What::Data(_) => "data".into() })); }
+        What::Resp { .. } => "resp".into(), What::Ind => "ind".into(), What::Garbage(_) => "garbage".into(), What::Empty => "empty".into(), What::Data(_) => "data".into(), What::Raw { .. } => "req_raw_layout".into() })); }
     b.transport.stop();
 }
 
@@ -355,7 +449,7 @@ fn gen_what(rng: &mut Rng, pending: u8) -> What {
     match rng.below(20) {
         0..=10 => What::Req { user: *rng.pick(&[User::None, User::Wrong, User::Ok, User::Ok]), mi: *rng.pick(&[Mi::None, Mi::Corrupt, Mi::WrongKey, Mi::Ok, Mi::Ok]), uc: rng.chance(1, 2), method: if rng.chance(1, 8) { rng.below(3) as u8 } else { 0 } },
         11..=14 => What::Resp { tx: if rng.chance(2, 3) && pending > 0 { rng.below(pending as u64) as u8 } else { 200 }, error: rng.chance(1, 3), method: if rng.chance(1, 6) { 1 } else { 0 } },
-        15 => What::Ind,
+        15 => if rng.chance(1, 2) { What::Ind } else { What::Raw { layout: rng.below(LAYOUTS.len() as u64) as u8, uc: rng.chance(1, 2) } },
         16 => { let n = rng.range(1, 40) as usize; let mut g = rng.bytes(n); g[0] = rng.below(2) as u8; What::Garbage(g) }
         17 => What::Empty,
         _ => { let n = rng.range(1, 30) as usize; let mut d = rng.bytes(n); if d[0] < 2 { d[0] = 128; } What::Data(d) }
@@ -442,6 +536,14 @@ pub fn run(args: &Args) {
             exec(&mut env, &mut run, &c, false);
         }}}
     }}}}
+    // malformed / unusual credential layouts x ±USE-CANDIDATE x roles x states x known/unknown source x {UDP, accepted TCP stream}
+    for layout in 0..LAYOUTS.len() as u8 { for uc in [false, true] { for controlling in [false, true] { for state in 0..3u8 { for known in [false, true] { for sock in [Sk::Udp0, Sk::Tcp] {
+        let remotes = if !known { 0 } else if sock == Sk::Tcp { 8 } else { 1 };
+        let c = Case { controlling, state, latching: false, nominated: false, webrtc: true, locals: 0b11101, remotes, selected: None, pending: 1,
+            pkts: vec![Pkt { sock, src: 0, what: What::Raw { layout, uc } }] };
+        exec(&mut env, &mut run, &c, false);
+    }}}}}}
+    run.count_n("exhaustive_malformed_credential_layouts", LAYOUTS.len() as u64 * 2 * 2 * 3 * 2 * 2);
     run.count_n("exhaustive_request_matrix", 2 * 3 * 5 * 2 * 3 * 4 * 2);
     // responses: solicited / unsolicited / replayed, success / error, all roles and states
     for controlling in [false, true] { for state in 0..3u8 { for error in [false, true] { for tx in [0u8, 1, 200] { for sock in [Sk::Udp0, Sk::Turn] {
